@@ -540,7 +540,7 @@ free_ed_buffer (object_t * who)
       free_object (ED_BUFFER->exit_ob, "ed EOF");
       FREE ((char *) ED_BUFFER);
       who->interactive->ed_buffer = 0;
-      set_prompt ("> ");
+      who->interactive->prompt = "> ";	/* not set_prompt(): it acts on command_giver */
       return;
     }
 #endif
@@ -550,7 +550,7 @@ free_ed_buffer (object_t * who)
 #ifdef OLD_ED
   FREE ((char *) ED_BUFFER);
   who->interactive->ed_buffer = 0;
-  set_prompt ("> ");
+  who->interactive->prompt = "> ";	/* not set_prompt(): it acts on command_giver */
 #else
   object_free_ed_buffer ();
 #endif
